@@ -11,7 +11,7 @@ from .. import world as W
 from . import _ws
 
 ID = 'C06'
-TIERS = {'quick': {'seeds': 4500, 'seconds': 75, 'determinism': 32},
+TIERS = {'quick': {'seeds': 4500, 'seconds': 45, 'determinism': 32},
          'thorough': {'seconds': 900, 'determinism': 256, 'minimise_s': 120}}
 RULE = ('fault-free children; per spec a sequential baseline and a -j N run (N in 1..k+1) under '
         '(a) a seeded random interleaving of parent threads and child actors, (b) a forced '
